@@ -6,6 +6,7 @@ import (
 	"fmt"
 	"net/http"
 	"net/url"
+	"os"
 	"strings"
 	"testing"
 	"time"
@@ -45,6 +46,7 @@ var c02Scenarios = []string{
 	"revoked-credential", "expired-credential", "foreign-subject-credential", "unknown-scope", "unfulfilled-scope",
 	"tamper-signature", "tamper-submission-definition", "tamper-submission-path", "tamper-scope", "tamper-claim",
 	"delayed-past-validity", "duplicate-delivery", "other-audience",
+	"openid4vp-valid", "openid4vp-forged-first-presentation", "openid4vp-forged-first-presentation",
 	"reissued-valid", "reissued-overlong", "reissued-overlong", "reissued-stale", "reissued-not-yet-valid", "reissued-other-domain", "reissued-reused-nonce",
 	"override-iss", "override-client_id", "override-scope", "override-exp", "override-iat", "override-sub", "override-active", "override-cnf",
 }
@@ -212,6 +214,99 @@ func c02Body(s *simkit.Sim, rc *simkit.RunCtx) {
 			}
 			return body
 		}
+	}
+
+	// ---- the authorization-code grant: the OpenID4VP user flow, the workload playing the browser ----
+	if strings.HasPrefix(scenario, "openid4vp-") {
+		forged := scenario == "openid4vp-forged-first-presentation"
+		if forged {
+			// The wallet's answer to the verifier is changed in transit into an array of two presentations: first a copy whose
+			// credential was altered (its proofs no longer verify), then the genuine one; the submission points at the first.
+			w.HTTP.TamperRequest = func(req *http.Request, body []byte) []byte {
+				if req.Method != "POST" || !strings.HasSuffix(req.URL.Path, "/oauth2/vendorA/response") {
+					return body
+				}
+				return editForm(body, func(v url.Values) {
+					vp := v.Get("vp_token")
+					if !strings.HasPrefix(strings.TrimSpace(vp), "{") || !strings.Contains(vp, "Caresoft B.V.") {
+						return
+					}
+					v.Set("vp_token", "["+strings.Replace(vp, "Caresoft B.V.", "Evilsoft B.V.", 1)+","+vp+"]")
+					var ps map[string]interface{}
+					if json.Unmarshal([]byte(v.Get("presentation_submission")), &ps) != nil {
+						return
+					}
+					dm, _ := ps["descriptor_map"].([]interface{})
+					for i, e := range dm {
+						if m, ok := e.(map[string]interface{}); ok {
+							dm[i] = map[string]interface{}{"id": m["id"], "format": "ldp_vp", "path": "$[0]",
+								"path_nested": map[string]interface{}{"id": m["id"], "format": m["format"], "path": m["path"]}}
+						}
+					}
+					b, _ := json.Marshal(ps)
+					v.Set("presentation_submission", string(b))
+					s.Info.Inc("openid4vp-response-rewritten")
+				})
+			}
+		}
+		var sessionID string
+		var hops []world.Hop
+		s.Do("user-flow", 5*time.Minute, func() {
+			code, body := cl.Call("POST", "/internal/auth/v2/vendorB/request-user-access-token", map[string]interface{}{
+				"authorization_server": p.asServer, "scope": "simple", "redirect_uri": "https://app.sim/callback",
+				"preauthorized_user": map[string]string{"id": "1", "name": "John Doe", "role": "Janitor"}})
+			var start struct {
+				RedirectURI string `json:"redirect_uri"`
+				SessionID   string `json:"session_id"`
+			}
+			_ = json.Unmarshal(body, &start)
+			if code != 200 || start.RedirectURI == "" {
+				return
+			}
+			sessionID = start.SessionID
+			hops = w.Browse(start.RedirectURI, map[string][]*http.Cookie{}, 10)
+		})
+		w.HTTP.TamperRequest = nil
+		if os.Getenv("C02DEBUG") != "" {
+			for _, r := range w.HTTP.Requests() {
+				if r.Method == "POST" {
+					fmt.Println("POST", r.URL, r.Status, trunc(string(r.ReqBody), 2500), "->", trunc(string(r.RespBody), 300))
+				}
+			}
+		}
+		if sessionID == "" {
+			s.Fail("C02.harness", "user-flow", "request-user-access-token failed")
+			return
+		}
+		code, body := cl.Call("GET", "/internal/auth/v2/accesstoken/"+sessionID, nil)
+		var got struct {
+			AccessToken string `json:"access_token"`
+		}
+		_ = json.Unmarshal(body, &got)
+		issued := code == 200 && got.AccessToken != ""
+		sample.Issued = issued
+		sample.Answer = fmt.Sprintf("%d hops, token status: %d %s", len(hops), code, trunc(string(body), 120))
+		s.Info.Inc(map[bool]string{true: "issued:", false: "refused:"}[issued] + scenario)
+		if forged && issued {
+			s.Fail("C02.issue", "issued:"+scenario, "the authorization-code grant ended in an access token although the first of the two presentations in the wallet's answer does not verify (its credential was altered)")
+			return
+		}
+		if !forged && !issued {
+			s.Fail("C02.issue", "refused:openid4vp-valid", "the untouched OpenID4VP user flow did not end in an access token: %s", sample.Answer)
+			return
+		}
+		if issued {
+			var tok struct {
+				AccessToken string `json:"access_token"`
+			}
+			_ = json.Unmarshal(body, &tok)
+			if _, m := as.Introspect(tok.AccessToken); m == nil || m["active"] != true {
+				s.Fail("C02.introspect", "active:openid4vp", "the token of the authorization-code grant is not active right after issuance")
+				return
+			}
+		}
+		rc.Nontrivial = true
+		return
 	}
 
 	// ---- the request ----
